@@ -357,6 +357,9 @@ impl AllPatterns {
     }
 }
 impl Family for AllPatterns {
+    fn ambient(&self, idx: u64) -> u64 {
+        crate::engine::rot(idx)
+    }
     fn name(&self) -> String {
         "all-null-patterns".into()
     }
@@ -406,6 +409,9 @@ impl Structured {
     }
 }
 impl Family for Structured {
+    fn ambient(&self, idx: u64) -> u64 {
+        crate::engine::rot(idx)
+    }
     fn name(&self) -> String {
         "structured-null-patterns".into()
     }
@@ -432,6 +438,9 @@ impl Family for Structured {
 /// NULL into NOT NULL columns
 struct NotNull;
 impl Family for NotNull {
+    fn ambient(&self, idx: u64) -> u64 {
+        crate::engine::rot(idx)
+    }
     fn name(&self) -> String {
         "not-null-columns".into()
     }
@@ -730,6 +739,9 @@ impl Recover {
     }
 }
 impl Family for Recover {
+    fn ambient(&self, idx: u64) -> u64 {
+        crate::engine::rot(idx)
+    }
     fn name(&self) -> String {
         "refused-cell-then-replacement".into()
     }
